@@ -24,7 +24,7 @@ ASCODED = "replace"
 
 CONSTS = {
     # name: (npeers, ncids, variants, maxlog, snaps, downs, installs)
-    "quick": (2, 2, '{"a","b"}', 3, 2, 1, 2),
+    "quick": (2, 2, '{"a","b"}', 3, 2, 2, 2),
     "thorough": (2, 2, '{"a","b"}', 4, 2, 2, 2),
     "thorough3": (3, 1, '{"a","b"}', 3, 2, 2, 2),
     "w_install": (2, 2, '{"a","b"}', 4, 1, 0, 1),
@@ -250,10 +250,14 @@ def run(ctx):
                        "the pinset store is the in-memory datastore ipfs-cluster-service gives to raft",
                        "kill points are between FSM operations (seam 1) and between/inside commits at process level (seam 3), "
                        "not at every fsync"]
-    spec_stage(ctx)
-    trace, n, dr = fsm_seam(ctx, rng)
-    validate(ctx, trace, "fsm", 0)
-    raft_seam(ctx)
+    stages = os.environ.get("VERIF_C01_STAGES", "spec,fsm,raft").split(",")   # debugging aid
+    if "spec" in stages:
+        spec_stage(ctx)
+    if "fsm" in stages:
+        trace, n, dr = fsm_seam(ctx, rng)
+        validate(ctx, trace, "fsm", 0)
+    if "raft" in stages:
+        raft_seam(ctx)
 
 
 def raft_seam(ctx):
@@ -268,11 +272,12 @@ def raft_seam(ctx):
         acts = [s["a"] for s in steps]
         return acts.count("restart") >= 1 and acts.count("pin") + acts.count("unpin") >= 3 and "rm" not in acts and "add" not in acts
 
-    scripts = c17.scripts_from_graph(ctx, rng, gen_cfg, 4 if ctx.quick() else 40, 11, want=want, prop="C01")
+    scripts = c17.scripts_from_graph(ctx, rng, gen_cfg, 8 if ctx.quick() else 60, 11, want=want, prop="C01")
     # the design-level counterexample on real raft: a peer holding a CID is down while the CID is
     # unpinned and the leader compacts its log, then comes back
+    scripts += c17.goal_scripts(ctx, ["NoRestartAfterUnpin", "NoRestartAfterChurn"], (3, 2, 5, 2, 2), "C01", 1000)
     ctx.extra["raft_seam_scripts"] = len(scripts)
-    c17.run_member_driver(ctx, scripts, "C01", "c01raft", 4 if ctx.quick() else 8)
+    c17.run_member_driver(ctx, scripts, "C01", "c01raft", 8)
 
 
 def replay(ctx, path):
